@@ -404,6 +404,20 @@ func c07Scripted() []dkgrig.Config {
 			s.Unsolicited[v] = true
 			return s, i == b
 		})
+		// nothing for v in the dealing phase, a correct apology when v accuses, a false accusation of the third
+		// keyper, and a private evaluation for v in the middle of the apologizing phase
+		for off := int64(1); off <= 5; off++ {
+			off := off
+			all(3, 2, func(i int) (dkgrig.Strategy, bool) {
+				s := dkgrig.HonestStrategy(3)
+				s.Eval[v] = dkgrig.EvalOmit
+				s.Accuse[3-b-v] = true
+				s.Stray = make([]bool, 3)
+				s.Stray[v] = true
+				s.StrayOffset = off
+				return s, i == b
+			})
+		}
 		// a wrong value for v only with the commitment first, apologising correctly / wrongly
 		for _, apo := range []dkgrig.ApologyMode{dkgrig.ApologyCorrect, dkgrig.ApologyWrong} {
 			apo := apo
